@@ -150,6 +150,12 @@ def prop (c : Case) : Option String × List String := Id.run do
   let some rcI := decR1 c "rcI" | return (some "gscon('I') not finite", tags)
   if let some m := test "gscon('1')" b1 rc1 then return (some m, tags)
   if let some m := test "gscon('I')" bI rcI then return (some m, tags)
+  -- NORM = 'O' is the documented other name of the one norm
+  if (c.raw "rcO").size > 0 then
+    let some rcO := decR1 c "rcO" | return (some "gscon('O') not finite", tags)
+    if let some m := test "gscon('O')" b1 rcO then return (some m, tags)
+    if c.raw "rcO" != c.raw "rc1" ∧ c.raw "anormO" == c.raw "anorm1" then
+      return (some "gscon('O') and gscon('1') return different values for the same factors and the same norm of A", tags)
   return (none, tags)
 
 def handle (c : Case) : Res :=
